@@ -193,7 +193,17 @@ package types
 //@   ensures [header] err == nil ==> HdrOf(sh) == PbHdrOf(other.Header) && val(sh.Signature) == val(other.Signature)
 //@   ensures [signer] err == nil && other.Signer != nil && len(other.Signer.PubKey) > 0 ==> sh.Signer.PubKey != nil
 //@                       && pkenc(pkraw(sh.Signer.PubKey.val)) == val(other.Signer.PubKey) && val(sh.Signer.Address) == val(other.Signer.Address)
-//@   ensures [no-signer] err == nil && (other.Signer == nil || len(other.Signer.PubKey) == 0) ==> sh.Signer.PubKey == nil && len(sh.Signer.Address) == 0
+//@   ensures [no-signer-key] err == nil && (other.Signer == nil || len(other.Signer.PubKey) == 0) ==> sh.Signer.PubKey == nil
+//@   ensures [signer-address-kept] err == nil && other.Signer != nil ==> val(sh.Signer.Address) == val(other.Signer.Address)
+//@   ensures [no-signer] err == nil && other.Signer == nil ==> len(sh.Signer.Address) == 0
+
+//@ func (sd *SignedData) ToProto() (p, err)
+//@   property C12
+//@   nopanic
+//@   fresh p
+//@   ensures [data] err == nil ==> p != nil && p.Data != nil && sameSeq(p.Data.Txs, sd.Data.Txs) && val(p.Signature) == val(sd.Signature) && p.Signer != nil
+//@   ensures [signer-key] err == nil && sd.Signer.PubKey != nil ==> val(p.Signer.PubKey) == pkenc(pkraw(sd.Signer.PubKey.val))
+//@   ensures [signer-address-kept] err == nil ==> val(p.Signer.Address) == val(sd.Signer.Address)
 
 //@ func (sd *SignedData) FromProto(other) (err)
 //@   property C12 C09
@@ -204,6 +214,8 @@ package types
 //@   ensures [signature] err == nil ==> val(sd.Signature) == val(other.Signature)
 //@   ensures [signer] err == nil && other.Signer != nil && len(other.Signer.PubKey) > 0 ==> sd.Signer.PubKey != nil
 //@                       && pkenc(pkraw(sd.Signer.PubKey.val)) == val(other.Signer.PubKey) && val(sd.Signer.Address) == val(other.Signer.Address)
+//@   ensures [no-signer-key] err == nil && (other.Signer == nil || len(other.Signer.PubKey) == 0) ==> sd.Signer.PubKey == nil
+//@   ensures [signer-address-kept] err == nil && other.Signer != nil ==> val(sd.Signer.Address) == val(other.Signer.Address)
 
 //@ pred PbStateOf(p) := StateR(ite(p.Version != nil, p.Version.Block, 0), ite(p.Version != nil, p.Version.App, 0), p.ChainId, p.InitialHeight, p.LastBlockHeight,
 //@                       ite(p.LastBlockTime != nil, p.LastBlockTime.tval, 0), p.DaHeight, val(p.LastResultsHash), val(p.AppHash))
